@@ -549,6 +549,7 @@ func exec(op string) string {
 			v := common.Atou(a["ver"])
 			ver = &v
 		}
+		time.Sleep(time.Millisecond) // distinct clock readings for consecutive ver=now publications
 		clock := time.Now().UnixNano()
 		run := func(c *object.Client, rs *recStore) (string, string) {
 			rs.log = nil
@@ -579,7 +580,7 @@ func exec(op string) string {
 		w := d.Wire.Join()
 		return "mem=" + errStr(h.recMem.Put(name, ver, w)) + " bolt=" + errStr(h.recBolt.Put(name, ver, w))
 	case "sfill":
-		// n tiny packets <pfx>/8:<i as 2 bytes> with version ver+((i*37)%n), inside one transaction per store
+		// n tiny packets <pfx>/8:<i as 2 bytes> with version ver+i (asc=1) or ver+((i*37)%n), inside one transaction per store
 		pfx := common.ParseNameText(a["pfx"])
 		n := common.Atoi(a["n"])
 		ver := common.Atou(a["ver"])
@@ -597,7 +598,11 @@ func exec(op string) string {
 				if err != nil {
 					return "harness-error"
 				}
-				if err := st.Put(nm, ver+uint64((i*37)%n), d.Wire.Join()); err != nil {
+				v := ver + uint64((i*37)%n)
+				if a["asc"] == "1" {
+					v = ver + uint64(i)
+				}
+				if err := st.Put(nm, v, d.Wire.Join()); err != nil {
 					r = "err"
 				}
 			}
@@ -616,7 +621,14 @@ func exec(op string) string {
 		pfx := a["pfx"] == "1"
 		return "mem=" + errStr(h.mem.Remove(name, pfx)) + " bolt=" + errStr(h.bolt.Remove(name, pfx))
 	case "consume":
-		return h.consume(common.ParseNameText(a["name"]), a["script"])
+		name := common.ParseNameText(a["name"])
+		extra := 0
+		if a["cap"] != "" {
+			extra = common.Atoi(a["cap"])
+		}
+		n := make(enc.Name, len(name), len(name)+extra) // the caller's slice may have spare capacity
+		copy(n, name)
+		return h.consume(n, a["script"])
 	}
 	return "bad-op"
 }
